@@ -18,7 +18,7 @@ func init() { register("C16", checkC16) }
 // exploration under the pool shim; free-running race pass) and writes verdict and evidence.
 func checkC16(c *mc.Ctx) {
 	c.Ev.Level = "model_checking"
-	c.Ev.Rule = "controlled cooperative scheduler over independent Demuxer/Muxer instances sharing the package-level pool: scheduling points at thread start/end and at every pool Get/Put (the library's only synchronisation operations), plus a data choice at Get (which pooled item is handed out); depth-first exploration of all choice sequences within a preemption bound and a pool-item deviation bound, every execution run to completion on the real code with pooled buffers poisoned on Put; every returned value deep-copied at delivery and re-compared after every later call; separate free-running pass of the same bodies in 2/8/64 goroutines under the race detector; distinct_nontrivial = distinct schedules executed"
+	c.Ev.Rule = "controlled cooperative scheduler over independent Demuxer/Muxer instances sharing the package-level pool: scheduling points at thread start/end and at every pool Get/Put (the library's only synchronisation operations), plus a data choice at Get (which pooled item is handed out); depth-first exploration of all choice sequences within a preemption bound and a pool-item deviation bound, every execution run to completion on the real code with pooled buffers poisoned on Put; every returned value deep-copied at delivery and re-compared after every later call; separate free-running pass of the same bodies in 2/8/64 goroutines under the race detector; all order-preserving merges of the calls of two Muxers / two Demuxers driven from one goroutine, compared with each instance run alone; distinct_nontrivial = distinct schedules executed"
 	c.Ev.Assumptions = append(c.Ev.Assumptions, "no shared mutable state other than the pool (premise of the partial-order reduction; checked by the race pass)",
 		"the sync.Pool shim may hand out any pooled item or a fresh one (a superset of what sync.Pool does)")
 	if t0, err := strconv.ParseInt(os.Getenv("VERIF_C16_T0"), 10, 64); err == nil && t0 > 0 {
@@ -90,5 +90,6 @@ func checkC16(c *mc.Ctx) {
 	if race.Runs > 0 {
 		c.Ev.Class("race-pass-ran", 1)
 	}
-	c.Ev.Require("race-pass-ran", "pool-operations-interleaved")
+	c16CallMerges(c)
+	c.Ev.Require("race-pass-ran", "pool-operations-interleaved", "muxer-call-merges", "demuxer-call-merges")
 }
